@@ -152,7 +152,7 @@ def check(run):
         if i % (4 if quick else 1) == 0:
             jobs.append((label, ini, "nts", 3, None))
     for (label, ini) in syscfg:     # the same without descriptor 0 in the caller, for everything that opens a descriptor
-        if label.startswith("output:") or label in ("file-template", "ident-template", "ds:cgroup", "ds:rpname", "ds:domain"):
+        if label.startswith("output:") or label.startswith("filter:exclude_spawns_of") or label in ("file-template", "ident-template", "ds:cgroup", "ds:rpname", "ds:domain"):
             jobs.append(("nofd0:" + label, ini, "ts", 3, None))
     gencfg = []
     for i in range(40 if quick else 3000):
@@ -245,6 +245,11 @@ def check(run):
             finds.append(("threads:died", "the process ended with status %s: %s (%s)" % (r["status"], r["stderr"][-200:], what), {}))
         for (kind, site) in r["errs"]:
             finds.append(("threads:heap:" + kind, "%s at %s (%s)" % (kind, addr2line(libs["ts"], site), what), {"site": addr2line(libs["ts"], site)}))
+        for (rnd, tid, mb, ma) in r.get("masks", []):
+            if mb != ma:
+                finds.append(("threads:sigmask", "thread %d (entered its call %s) leaves the call of round %d with signal mask %s, it entered with %s (%s)"
+                              % (tid, ("first", "in the middle", "last")[tid % 3], rnd, ma, mb, what), {"round": rnd, "thread": tid, "mask_before": mb, "mask_after": ma}))
+                break
         base = None
         for (label, n, al) in r["marks"]:
             nmt += 1
@@ -319,7 +324,7 @@ def replay(run, path):
     if "mt" in rep:
         m = rep["mt"]
         r = run_lifemt(run, libs["ts"], "replay", m["rounds"], m["order"], m.get("extra", "").encode())
-        bad = r["status"] != 0 or bool(r["errs"]) or any(al["lib"] for (_, _, al) in r["marks"])
+        bad = r["status"] != 0 or bool(r["errs"]) or any(al["lib"] for (_, _, al) in r["marks"]) or any(mb != ma for (_, _, mb, ma) in r.get("masks", []))
         print("overlapping threads, order %s, %d rounds: status %s" % (m["order"], m["rounds"], r["status"]))
         for (label, n, al) in r["marks"]:
             print("  after %s %d: live library blocks %s" % (label, n, {addr2line(libs["ts"], k): v for k, v in al["lib"].items()} or "none"))
